@@ -327,6 +327,10 @@ class Unit:
             item = X.split_or_patterns(item, log)
         extra_caps = {}
         for d in blk.dirs:
+            if d.kind == 'param':
+                a = d.arg.split()
+                item = X.rename_param(item, int(a[0]), a[1], log)
+        for d in blk.dirs:
             if d.kind == 'rw':
                 args = d.arg.split()
                 count = '1'
